@@ -20,7 +20,7 @@ LEVEL = "fault_enumeration"
 BUDGET = {"quick": 150, "thorough": 900}
 EXHAUSTIVE = {"quick": True, "thorough": True}
 RULE = ("Grid (complete): starttls argument {False, True, 1, 'required' (truthy, not the True singleton)} x server STARTTLS support {no,yes} x SASL announcement variant "
-        "(same pre/post; pre PLAIN -> post LOGIN only; pre none -> post PLAIN; pre PLAIN -> post none; no SASL capability; post look-alike names only; post names that are not UTF-8) x "
+        "(same pre/post; pre PLAIN -> post LOGIN only; pre none -> post PLAIN; pre PLAIN -> post none; three pairs of listings that both name implemented mechanisms, but different ones (the mechanism used after the handshake must be the choice made from the later listing and the caller's authmech alone); no SASL capability; post look-alike names only; post names that are not UTF-8) x "
         "authmech {None, PLAIN, LOGIN, OAUTHBEARER, DIGEST-MD5, unknown} x one fault (or none) at a handshake step: greeting "
         "{refuse, BYE, NO, silence, close, garbage, missing OK, a complete greeting whose final text is a {n+} literal (alone and with a wrong password)}, STARTTLS {NO, BYE, silence, close, OK followed by an injected plaintext capability block}, TLS handshake "
         "{SSLError, cert error, timeout, EOF}, post-TLS capabilities {BYE, NO, silence, close, garbage, missing OK, a complete listing with a line that is not UTF-8 / blank, a listing that arrives after the read timeout (alone, and with a wrong password)}, "
@@ -43,6 +43,11 @@ SASL_VARIANTS = [
     ("pre-plain-post-login", ["PLAIN"], ["LOGIN"]),
     ("pre-none-post-plain", [], ["PLAIN"]),
     ("pre-plain-post-none", ["PLAIN"], []),
+    # both listings name implemented mechanisms, but different ones: what was announced in clear text must not even
+    # influence which of the mechanisms announced after the handshake is used (or whether the caller's authmech is honoured)
+    ("pre-digest-post-plain-login", ["DIGEST-MD5"], ["PLAIN", "LOGIN"]),
+    ("pre-login-post-oauth-plain", ["LOGIN"], ["OAUTHBEARER", "PLAIN"]),
+    ("pre-plain-login-post-login-digest", ["PLAIN", "LOGIN"], ["LOGIN", "DIGEST-MD5"]),
     ("no-sasl-cap", None, None),
     ("pre-plain-post-no-sasl-line", ["PLAIN"], False),
     ("pre-plain-post-bare-sasl-line", ["PLAIN"], "bare"),
@@ -258,6 +263,13 @@ def check_after_call(world, srv, client, meth, args, kw, out, was_auth, starttls
                 if r.verb == b"AUTHENTICATE" and r.sasl is not None and r.sasl.get("unannounced"):
                     return Failure(PROP, "C10.stale-mech", "after STARTTLS the client authenticated with %s, which the server announced only before the handshake (announced now: %r)" % (
                         r.sasl["mech"], r.sasl["announced"]), {"call": meth})
+                if r.verb == b"AUTHENTICATE" and r.sasl is not None and r.channel != "plain":
+                    now = [a.decode("ascii", "replace") if isinstance(a, bytes) else a for a in (r.sasl.get("announced") or [])]
+                    from scenarios.c16 import expected_mech
+                    allowed = expected_mech(now, kw.get("authmech"))
+                    if r.sasl["mech"] not in allowed:
+                        return Failure(PROP, "C10.stale-mech", "after STARTTLS (announced now: %r) connect(authmech=%r) authenticated with %s; the choice made "
+                                       "from the listing read after the handshake is %r" % (now, kw.get("authmech"), r.sasl["mech"], sorted(str(x) for x in allowed)), {"call": meth})
     return None
 
 
